@@ -16,6 +16,7 @@ import GlareModel.Core.Layout
 import GlareModel.Core.Plain
 import GlareModel.Core.Proto
 import GlareModel.Core.ExecStack
+import GlareModel.Core.Directory
 
 /-! `gmodel`: line-protocol driver. Reads `case <n> <component> ...` lines on stdin and
 prints `out <n> ...` lines computed by the code-shaped model. -/
@@ -374,6 +375,22 @@ def runLayout (args : List String) : String :=
     s!"v={l.validityWidth} w={l.rowWidth} o={os}"
   | _ => "bad-case"
 
+/-- `case N directory <n1:g1,..|->`: capacity and occupancy of the aggregate directory after every batch. -/
+def runDirectory (args : List String) : String :=
+  match args with
+  | [bs] =>
+    let batches : List (Nat × Nat) := if bs == "-" then [] else
+      (bs.splitOn ",").filterMap fun t => match t.splitOn ":" with
+        | [a, b] => match a.toNat?, b.toNat? with
+          | some x, some y => some (x, y)
+          | _, _ => none
+        | _ => none
+    let states := (batches.foldl (fun (acc : Directory.Dir × List Directory.Dir) b =>
+      let d := Directory.batch acc.1 b.1 b.2
+      (d, d :: acc.2)) (Directory.init, [])).2.reverse
+    if states.isEmpty then "-" else ",".intercalate (states.map fun d => s!"{d.cap}:{d.occupied}")
+  | _ => "bad-case"
+
 /-- `case N execstack <num_operators> <b1,b2,..|->`: the calls `ExecutionStack::pop_next` makes under a scripted handler. -/
 def runExecStack (args : List String) : String :=
   match args with
@@ -446,6 +463,7 @@ def step (line : String) : Option String :=
   | "case" :: n :: "pqpage" :: args => some s!"out {n} {runPqPage args}"
   | "case" :: n :: "layout" :: args => some s!"out {n} {runLayout args}"
   | "case" :: n :: "execstack" :: args => some s!"out {n} {runExecStack args}"
+  | "case" :: n :: "directory" :: args => some s!"out {n} {runDirectory args}"
   | "case" :: n :: "footer" :: args => some s!"out {n} {runFooter args}"
   | "case" :: n :: "unify" :: args => some s!"out {n} {runUnify args}"
   | "case" :: n :: "tok" :: args => some s!"out {n} {runTok args}"
